@@ -14,7 +14,7 @@ finish, sliced 0..32.  (3) One identity per server: in Server::new both Responde
 parser and the displayed public key use the single LongTermKey built from load_seed(config); load_seed returns config.seed() on the
 plaintext arm.  (4) Certificates: see C02.1 (context, payload, MINT/MAXT) and C13.1 (buffer cleared after each signature).
 (5) Cross-protocol separation: the two delegation context strings differ at a byte position inside both, so no DELE payload makes the
-signed strings equal.
+signed strings equal.(6) The certificate a responder sends is the one made for the online key it signs with (C02: Responder::new/certifies-stored-key-and-version, send_responses/cert-is-own-certificate).
 """
 NOT_DECIDED = "that ed25519-dalek derives the RFC 8032 public key from the seed (trusted)"
 TRUSTED = ["ed25519-dalek SigningKey::from / verifying_key", "ring digest SHA-512"]
